@@ -42,6 +42,84 @@ def property_fails_on(prev_impl_broker, op, impl):
     return None
 
 
+def history_oracle(ops, impl):
+    """The history theorems (tls_gate_history, auth_gate_history, trace_state, no_effect_before_auth) evaluated on
+    the implementation's own trace: a flag can be up only after the event that the theorem names, and the broker can
+    have grown through a command only on a connection that passed the gates. Returns [(key, index, detail)]."""
+    out = []
+    cfg, conns, prev_broker = None, {}, None
+    for idx, (o, i) in enumerate(zip(ops, impl)):
+        w = o.split()
+        if w[0] == "cfg":
+            cfg, conns, prev_broker = w, {}, "-"
+            continue
+        if cfg is None:
+            continue
+        if w[0] == "conn":
+            conns[w[1]] = {"tls": False, "auth": False, "sub": False}
+            continue
+        if w[0] == "x":
+            prev_broker = broker_of(i) or prev_broker
+            continue
+        if w[0] not in ("c", "cx") or w[1] not in conns:
+            continue
+        st, cmd = conns[w[1]], w[4]
+        replies = i.split(" close=")[0]
+        m = re.search(r"tls=(\d) st=(\w+) authed=(\d) broker=(\S+)", i)
+        if not m:
+            continue
+        tls, state, authed, broker = m.groups()
+        if cmd == "IDENTIFY" and re.match(r"ident:tls=1:auth=\d\|OK$", replies):
+            st["tls"] = True
+        if cmd == "AUTH" and replies.startswith("auth:"):
+            st["auth"] = True
+        if cmd == "SUB" and replies == "OK":
+            st["sub"] = True
+        if tls == "1" and not st["tls"]:
+            out.append(("hist-tls:" + cmd, idx, "TLS flag set without a completed handshake inside an earlier IDENTIFY [%s]" % o[:200]))
+        if authed == "1" and not st["auth"]:
+            out.append(("hist-auth:" + cmd, idx, "connection holds authorizations without an earlier successful AUTH [%s]" % o[:200]))
+        if state != "init" and not st["sub"]:
+            out.append(("hist-sub:" + cmd, idx, "connection left the initial state without an accepted SUB [%s]" % o[:200]))
+        grew = prev_broker is not None and content_grew(prev_broker, broker)
+        if grew and cfg[4] != "0" and not st["auth"]:
+            out.append(("hist-effect-auth:" + cmd, idx, "%s changed the broker (%s -> %s) on a connection without an earlier successful AUTH" % (cmd, prev_broker[:150], broker[:150])))
+        if grew and (cfg[1] != "0" or cfg[2] != "-") and not st["tls"]:
+            out.append(("hist-effect-tls:" + cmd, idx, "%s changed the broker (%s -> %s) on a connection without a completed TLS handshake" % (cmd, prev_broker[:150], broker[:150])))
+        prev_broker = broker
+    return out
+
+
+def parse_broker(b):
+    d = {}
+    if b in (None, "-"):
+        return d
+    for t in b.split(";"):
+        m = re.match(r"(.*)\((\d+)\)\[(.*)\]$", t)
+        if not m:
+            continue
+        chans = {}
+        for c in filter(None, m.group(3).split(",")):
+            name, _, k = c.rpartition(":")
+            chans[name] = int(k)
+        d[m.group(1)] = (int(m.group(2)), chans)
+    return d
+
+
+def content_grew(a, b):
+    """a topic, a channel, a message or a subscription appeared"""
+    if a == b:
+        return False
+    A, B = parse_broker(a), parse_broker(b)
+    for t, (n, chans) in B.items():
+        if t not in A or n > A[t][0]:
+            return True
+        for c, k in chans.items():
+            if c not in A[t][1] or k > A[t][1][c]:
+                return True
+    return False
+
+
 class Stream:
     """one harness run + the model's replay of its op lines"""
 
@@ -70,6 +148,8 @@ class Stream:
         self.impl = open(os.path.join(ctx.work, stream + ".impl")).read().splitlines()
         rc2, mout = ctx.driver("gate", stdin_path=os.path.join(ctx.work, stream + ".ops"))
         self.model = mout.splitlines()
+        if stream != "gateia":
+            self.fails += history_oracle(self.ops, self.impl)
         self.ok = True
 
     def context(self, idx, minimal):
